@@ -36,6 +36,11 @@ pub use error::Error;
 pub use watchpoint::WatchpointView;
 pub use watchpoint::WatchpointViewOwned;
 
+#[cfg(feature = "verif")]
+pub mod verif_reexport {
+    pub use super::debugee::dwarf::VerifPathSearchIndex as PathSearchIndex;
+}
+
 use crate::debugger::Error::Syscall;
 use crate::debugger::address::{Address, GlobalAddress, RelocatedAddress};
 use crate::debugger::breakpoint::{Breakpoint, BreakpointRegistry, BrkptType, UninitBreakpoint};
